@@ -30,7 +30,9 @@ RULE = ("Hypothesis draws well-formed definition closures (vlib.defgen.programs:
         "carries them) of every message and struct are compared between the generator's expectation, the parser model, Python "
         "(ctypes), C (gcc probe: sizeof/_Alignof/offsetof/_Generic), JavaScript (node) and MATLAB (interpreter); sizeof/offsetof from "
         "gcc == ctypes == type_size == sum of MATLAB element sizes == expectation.  A stream of NEAR MISSES runs beside it: hand-written files with zero / negative / fractional array lengths and with "
-        "one name given to two kinds of definition across files (with a field that uses it), generated programs of the generator's 'fractional-length' class, plus a rotating slice "
+        "one name given to two kinds of definition across files (with a field that uses it), with the 7 reserved field names, definitions that "
+        "need padding compiled with auto_pad off and validation on (through compile() keywords, the CLI flag and compiler_options in the YAML; "
+        "hand-written layouts and the generator's layout profile), generated programs of the generator's 'fractional-length' and 'reserved-field-name' classes, plus a rotating slice "
         "(all in the thorough tier) of the generator's 804-case conflict table; a rejection is only counted, an accepted one gets the same cross-language "
         "comparison with the parser model as reference.  Non-trivial = accepted program with >=2 distinct "
         "native widths and >=1 nested or array field; distinct = set of (resolved native type, scalar/array) + nesting depth + options.")
@@ -96,6 +98,37 @@ def substring_program(core: bool) -> G.Program:
     probs = p.problems()
     if probs:
         raise HarnessError(f"substring program is ill-formed: {probs[:2]}")
+    return p
+
+
+def alias_chain_program(core: bool, variant: int) -> G.Program:
+    """Aliases of aliases of a struct of an imported file (chains of length 2 and 3), used as scalar field and as array
+    element, in a struct and in a message."""
+    def F(name, base, n=None):
+        return G.FieldSpec(name, base if n is None else f"{base}[{n}]", base, n, None if n is None else str(n))
+
+    b = G.FileSpec(path="geom/base.yaml", defs=[
+        G.Def(kind="struct", name="VERTEX_S", file="geom/base.yaml", fields=[F("x", "double"), F("y", "double"), F("tag", "int32"), F("pad", "int32")])])
+    m = G.FileSpec(path="geom/mid.yaml", imports=[["base.yaml", "geom/base.yaml"]], defs=[
+        G.Def(kind="alias", name="VERTEX", file="geom/mid.yaml", value="VERTEX_S"),
+        G.Def(kind="alias", name="COORD", file="geom/mid.yaml", value="double"),
+        G.Def(kind="alias", name="COORD2", file="geom/mid.yaml", value="COORD")])
+    rp = "shapes.yaml"
+    rdefs = [G.Def(kind="alias", name="CORNER", file=rp, value="VERTEX"),
+             G.Def(kind="alias", name="CORNER3", file=rp, value="CORNER" if variant == 0 else "VERTEX"),
+             G.Def(kind="alias", name="LOCAL_V", file=rp, value="VERTEX_S"),
+             G.Def(kind="alias", name="LOCAL_V2", file=rp, value="LOCAL_V"),
+             G.Def(kind="alias", name="COORD3", file=rp, value="COORD2"),
+             G.Def(kind="struct", name="BOX", file=rp, fields=[F("a", "CORNER"), F("b", "CORNER", 3), F("c", "CORNER3"), F("w", "COORD3"), F("h", "COORD3", 2)]),
+             G.Def(kind="message", name="SHAPE", file=rp, id=4410, fields=[F("c", "CORNER"), F("cs", "CORNER3", 2), F("box", "BOX"), F("lv", "LOCAL_V2", 2),
+                                                                         F("v", "VERTEX"), F("z", "COORD3")]),
+             G.Def(kind="message", name="SHAPES", file=rp, id=4411, fields=[F("all", "SHAPE", 2), F("last", "LOCAL_V2")])]
+    r = G.FileSpec(path=rp, imports=[["geom/mid.yaml", "geom/mid.yaml"]], defs=rdefs)
+    p = G.Program([b, m, r], rp, {"auto_pad": True, "validate_alignment": True, "import_coredefs": core}, "chain",
+                  {"covering", "alias-of-alias", "alias-of-imported-struct", "alias-of-imported-struct-field", "alias-chain-to-struct", "alias-field", "struct-array"})
+    probs = p.problems()
+    if probs:
+        raise HarnessError(f"alias chain program is ill-formed: {probs[:2]}")
     return p
 
 
@@ -479,7 +512,57 @@ def near_miss_family():
                 root += "message_defs:\n" + _NM_USER
             out.append((f"name-{second}-shadows-imported-{first}", {"files": {"base.yaml": _NM_BASE[first], "root.yaml": root}, "root": "root.yaml"},
                         dict(auto_pad=True, validate_alignment=True, import_coredefs=False)))
+    for fname in G.RESERVED_FIELD_NAMES:
+        text = f"message_defs:\n  NM_RSV:\n    id: 4700\n    fields:\n      first: int32\n      {fname}: int32\n      value: double\n"
+        out.append((f"reserved-field-name/{fname}", {"files": {"nm.yaml": text}, "root": "nm.yaml"}, dict(auto_pad=True, validate_alignment=True, import_coredefs=False)))
     return out
+
+
+# definitions that NEED padding: with auto_pad off and validate_alignment on the compiler must refuse them (AlignmentError)
+MISALIGNED = [
+    ("interior-1-8", "a: uint8\n      b: double\n      c: int16"),
+    ("trailing", "a: double\n      b: int32"),
+    ("interior-2-4", "a: int16\n      b: int32\n      c: int16"),
+    ("array-then-wide", "a: char[3]\n      b: uint64\n      c: float"),
+    ("nested", "a: uint8\n      s: NM_INNER\n      b: int32"),
+]
+
+
+def misaligned_family():
+    """[(kind, how, src, opts-or-flags)]: each layout through compile() keywords, the CLI flag and compiler_options in the YAML."""
+    out = []
+    for kind, fields in MISALIGNED:
+        body = ("struct_defs:\n  NM_INNER:\n    fields:\n      x: double\n      y: int32\n      z: int32\n" if "NM_INNER" in fields else "") + \
+            f"message_defs:\n  NM_ALIGN:\n    id: 4800\n    fields:\n      {fields}\n  NM_HOLDER:\n    id: 4801\n    fields:\n      v: double\n      n: int32\n      m: int32\n"
+        src = {"files": {"al.yaml": body}, "root": "al.yaml"}
+        out.append((f"needs-padding-no-auto-pad/{kind}", "kwargs", src, dict(auto_pad=False, validate_alignment=True, import_coredefs=False)))
+        out.append((f"needs-padding-no-auto-pad/{kind}", "cli-flag", src, ["--no_core_import", "--no_auto_pad"]))
+        src2 = {"files": {"al.yaml": "compiler_options:\n  IMPORT_COREDEFS: false\n  AUTO_PAD: false\n" + body}, "root": "al.yaml"}
+        out.append((f"needs-padding-no-auto-pad/{kind}", "cli-yaml-option", src2, []))
+    return out
+
+
+def run_near_miss_cli(E: L.Examiner, kind, src, flags, res: Result = None):
+    try:
+        # every file of this family switches the core import off (flag or compiler_options); the reference model likewise
+        ex = E.examine_cli(src, flags, model_opts={"validate_alignment": False, "auto_pad": False, "import_coredefs": False})
+    except L.ToolTimeout:
+        if res is not None:
+            res.inconclusive += 1
+        return []
+    if res is not None:
+        res.count("near-miss/programs")
+        res.count("near-miss/through-cli")
+        res.inconclusive += len(ex.timeouts)
+    if ex.cli[0] != 0:
+        if res is not None:
+            res.count("near-miss/rejected" if "Error:" in ex.cli[1] and "Traceback" not in ex.cli[1] else "near-miss/internal-error")
+        return []
+    fnd = near_miss_findings(kind, ex)
+    if res is not None:
+        res.count("near-miss/accepted")
+        res.count("near-miss/accepted/" + kind.split("/")[0])
+    return fnd
 
 
 def near_miss_findings(kind, ex: L.Exam):
@@ -556,7 +639,24 @@ def shard(seed, n, idx, quick):
             res.notes.append(f"covering family: each of the {len(types)} native names as scalar, array element and alias target (scalar and array), core on and off")
 
         one(substring_program(idx % 2 == 0), "covering-family")
-        res.evaluations += 1
+        one(alias_chain_program(idx % 4 < 2, idx % 2), "covering-family")
+        res.evaluations += 2
+        for j, (kind, how, src, arg) in enumerate(misaligned_family()):
+            if j % 16 == idx:
+                fnd = run_near_miss(E, kind, src, arg, res) if how == "kwargs" else run_near_miss_cli(E, kind, src, arg, res)
+                for key, what in fnd:
+                    res.add_finding(key, what, {"key": key, "near_miss": kind, "how": how, "src": src, "opts": arg})
+                res.count("near-miss/misaligned-" + how)
+                res.evaluations += 1
+        # the generator's layout profile: field sequences that need padding, auto_pad off -> AlignmentError expected
+        for j in range(3 if quick else 30):
+            q = G.build_layout_program(G.RandomChooser(seed * 100 + j), auto_pad=False)
+            if (q.expect or {}).get("outcome") == "AlignmentError":
+                for key, what in run_near_miss(E, "needs-padding-no-auto-pad/generated", q, q.compile_kwargs(), res):
+                    res.add_finding(key, what, {"key": key, "near_miss": "needs-padding-no-auto-pad/generated", "how": "kwargs",
+                                                "src": {"files": dict(q.files), "root": q.root}, "opts": q.compile_kwargs()})
+                res.count("near-miss/generated-misaligned")
+                res.evaluations += 1
         # near misses: the hand-written family (member j on shard j mod 16) and a slice of the generator's conflict table
         for j, (kind, src, opts) in enumerate(near_miss_family()):
             if j % 16 == idx:
@@ -568,11 +668,12 @@ def shard(seed, n, idx, quick):
                 res.add_finding(key, what, {"key": key, "near_miss": kind, "src": {"files": dict(q.files), "root": q.root}, "opts": q.compile_kwargs()})
             res.evaluations += 1
 
-        # generated near misses: the generator's opt-in class "fractional-length" (one extra field T[A / B] with A/B below one, zero,
+        # generated near misses: the generator's opt-in classes "reserved-field-name" (a field called type_hash, hexdump, ...) and "fractional-length" (one extra field T[A / B] with A/B below one, zero,
         # or truncated); the ill-formed ones are near misses, the well-formed (truncated) ones ordinary programs
-        for j in range(3 if quick else 30):
-            q = G.random_program(seed * 100 + j, allow=("fractional-length",), validate_alignment=True)
-            sub = next((c for c in q.classes if c.startswith("fractional-length/")), None)
+        for j in range(6 if quick else 60):
+            cls = ("fractional-length", "reserved-field-name")[j % 2]
+            q = G.random_program(seed * 100 + j, allow=(cls,), validate_alignment=True)
+            sub = next((c for c in q.classes if c.startswith(cls + "/")), None)
             if sub is None:
                 continue
             if q.wellformed:
@@ -613,7 +714,10 @@ def replay_trace(trace: dict):
     E = L.Examiner()
     try:
         if "near_miss" in trace:
-            fnd = run_near_miss(E, trace["near_miss"], trace["src"], trace["opts"], None)
+            if trace.get("how", "kwargs") == "kwargs":
+                fnd = run_near_miss(E, trace["near_miss"], trace["src"], trace["opts"], None)
+            else:
+                fnd = run_near_miss_cli(E, trace["near_miss"], trace["src"], trace["opts"], None)
         else:
             fnd = run_case(E, G.Program.from_json(trace["program"]), None)
     finally:
